@@ -124,5 +124,5 @@ register('C20', [
     'cost objective: one time rate per actor part and NO waiting before/after the insertion (the precondition stated by the property)',
 ], [
     'time-dependent routing; work-balance / compactness / fast-service objectives (non-additive); realisation through a full recreate step',
-    'minimize-unassigned / fleet-usage / total-value estimates (their fitness folds run over InsertionContext)',
+    'the fitness folds of minimize-unassigned and total-value run over InsertionContext hash containers: their estimates are compared with the analytic change (-w(job), -value(job)); the tour count fitness closure is executed',
 ])
